@@ -67,7 +67,8 @@ CHECKS = {
         text="_simulate_detailed on generated load sequences / irregular times / monotone g tables, and GHE.simulate for both "
              "time-step methods on real GHE objects (all pipe types, N 1..400, 1..5 stored heights), compared step by step with "
              "a direct transcription of the documented formula (1e-9 K); zero-load, linearity, ground-temperature shift and "
-             "conditional sign relations checked independently of the reference. Sampling.",
+             "conditional sign relations checked independently of the reference; the hybrid runs simulate a second time at the "
+             "same height after the long-time library was replaced. Sampling.",
         note="g evaluated with np.interp on the object's own table; hourly method for 12/24-month horizons only.",
         ref="DESIGN.md section 3 C09",
     ),
@@ -94,7 +95,8 @@ CHECKS = {
         text="combine_sts_lts on generated axes (both branches), grab_g_function on real GHE objects with a stored radius "
              "different from the borehole's, interpolation at stored heights for 1..5-height families, radius-correction "
              "algebra, UHTR curves of generated fields (1..150 boreholes) against the FLS superposition (1e-4 / 1e-6 relative), "
-             "MIFT single borehole within 20 %. Sampling. KF-C11-1 recorded for irregular fields.",
+             "MIFT single borehole within 20 %. Sampling. KF-C11-1 recorded for irregular fields, KF-C11-2 for thermally "
+             "short-circuited single boreholes (MIFT deviation > 20 %).",
         note="O4 quadrature self-tested against adaptive quad (1e-13); exact abscissa ties excluded.",
         ref="DESIGN.md section 3 C11",
     ),
@@ -112,8 +114,9 @@ CHECKS = {
     "C20": dict(
         technique="exhaustive enumeration over N=1..400 x Hypothesis-drawn flows/fluids + differential pairs (BOREHOLE v vs SYSTEM N v) through real search objects",
         text="retrieve_flow of all four search classes for every N in 1..400, and calculate_excess of real search objects "
-             "under both flow specifications for the same field (all pipe types): mass flow, system flow, R_b* and every "
-             "simulated temperature agree.",
+             "under both flow specifications for the same field (all pipe types) after another candidate was evaluated on "
+             "the same object: mass flow (also the one handed to the g-function calculation, observed at the seam), system "
+             "flow, R_b* and every simulated temperature agree; one manager re-specified from BOREHOLE to SYSTEM flow.",
         note="L2 seam (surrogate long-time g) for the pairs; Bisection2D/ZD instances are made by re-classing a Bisection1D "
              "built with search=False.",
         ref="DESIGN.md section 3 C20",
